@@ -3,6 +3,7 @@
 //! milliseconds); negative fields are EINVAL as for the native call; NULL never gives up.
 use super::*;
 use crate::syscall::unix::__verif_harness_c14_model_rs::*;
+use std::time::Duration;
 
 #[derive(Debug, Default)]
 struct NothingReady {}
@@ -63,4 +64,34 @@ fn c14_select_infinite() {
     let nio: NioSelectSyscall<NothingReady> = NioSelectSyscall::default();
     let _ = nio.select(None, 0, std::ptr::null_mut(), std::ptr::null_mut(), std::ptr::null_mut(), std::ptr::null_mut());
     kani::assert(false, "C14.select_null_timeout_never_returns_while_nothing_is_ready");
+}
+
+/// recorder without the round bound of `wait_event_stub`: the unit below is bounded by its unwind value instead
+fn wait_event_long_stub(t: Option<Duration>) -> std::io::Result<()> {
+    unsafe {
+        WAIT_CALLS += 1;
+        match t { Some(d) => { WAITED_MS += d.as_millis() as u64; } None => { WAIT_NONE = true; } }
+    }
+    Ok(())
+}
+static mut WAITED_MS: u64 = 7;
+
+/// thorough tier: requests of up to 5 s (313 + 4 rounds of at most 16 ms, fully unwound), which spans the values
+/// where the microsecond field no longer fits 32 bits of nanoseconds (4 294 968 us) and where it exceeds a second
+#[kani::proof]
+#[kani::unwind(330)]
+#[kani::stub(crate::net::EventLoops::wait_event, wait_event_long_stub)]
+fn c14_select_up_to_5s() {
+    let usec: i64 = kani::any();
+    kani::assume(usec > 143_000 && usec <= 5_000_000);
+    unsafe { WAITED_MS = 0; }
+    let mut tv = timeval { tv_sec: 0, tv_usec: usec };
+    let nio: NioSelectSyscall<NothingReady> = NioSelectSyscall::default();
+    let r = nio.select(None, 0, std::ptr::null_mut(), std::ptr::null_mut(), std::ptr::null_mut(), &raw mut tv);
+    kani::assert(r == 0, "C14.select_times_out_with_0");
+    let waited_us = unsafe { WAITED_MS } * 1_000;
+    kani::assert(waited_us >= usec as u64, "C14.select_never_waits_less_than_requested");
+    kani::assert(waited_us < usec as u64 + 1_000, "C14.select_waits_no_more_than_requested_plus_1ms");
+    kani::cover!(usec == 5_000_000, "C14.cover_select_5s");
+    kani::cover!(usec == 4_294_968, "C14.cover_select_u32_nanosecond_threshold");
 }
